@@ -19,6 +19,28 @@ def replay(pid, path):
     sc = Scratch(pid + "-replay")
     try:
         ops = rp.get("ops") or rp.get("ops_a")
+        if ops and "crash_event" in rp:
+            # re-run the crash enumeration of this workload and show the image in question
+            from . import crashcheck
+
+            class C:
+                scratch = sc
+            recs, err, rc = crashcheck.run_crash(C, ops, mode="io", cuts="few" if rp.get("cut") else "none", dumpfiles=False)
+            hit = [r for r in recs if r["kind"] == "image" and r["k"] == rp["crash_event"] and (r.get("cut") or None) == (rp.get("cut") or None)]
+            for r in hit[:3]:
+                print("image at event %d (%s) cut=%s: open=%s dump=%s reopen=%s" % (r["k"], r["ev"], r.get("cut"), r.get("open"),
+                                                                                   str(r.get("dump"))[:300], r.get("open2")))
+            if not hit:
+                print("no image for event", rp["crash_event"], "(workload events:", sum(1 for r in recs if r["kind"] == "event"), ")")
+            return 0
+        if rp.get("scenario"):
+            from . import conccheck
+
+            class C:
+                scratch = sc
+            outs, err = conccheck.run_sched(C, [rp["scenario"]])
+            print(json.dumps(outs, indent=1)[:3000])
+            return 0
         if ops:
             base = sc.fresh()
             outs = run_impl(ops, base)
